@@ -39,6 +39,8 @@ from tools.facts import c19 as F
 from tools.facts.common import fresh_import
 
 NAMES = ('a', 'b', 'c', 'd', 'e', 'f', 'g', 'h', 'i', 'j', 'k', 'l')
+ODD_NAMES = ('handler', 'args', 'kwargs', 'func', 'request', 'info', 'cls', 'name', 'params',
+             'method', 'session', 'message')
 UNKNOWN = 'zz'
 SELF = 'self'
 INVALID_ARGS = -32602          # the property text fixes both codes
@@ -775,6 +777,12 @@ def run(ctx):
                                                 'mpos1', 'pkw:first', 'pkw:last', 'pmix:last',
                                                 'pnestmix:last', 'pnestkw:last'],
                                    'one_size_more_plain_and_method_only': extra}
+    # (b'') the same small scopes with parameter names that the library's own code uses for its
+    # locals and parameters (a peer-supplied name must never collide with library internals)
+    odd = [(w, sg, None) for n in range(1, 4) for sg in F.all_signatures(n, ODD_NAMES)
+           for w in ('plain', 'method', 'pkw:last')]
+    run_items(ctx, res, odd, parallel=True)
+    res['scopes']['library_internal_names'] = {'names': list(ODD_NAMES), 'items': len(odd)}
     # (b') histories: the same function object in several binding forms, one after the other
     hmax = 2 if unlisted_failure(ctx, res) else (4 if deep else 3)
     hist = history_items(hmax)
